@@ -41,6 +41,16 @@ def main():
             t = sh(["/venv/bin/python", "-m", "pytest", "-q", "-p", "no:cacheprovider", "-n", jobs, "--timeout=3000"], env=env, cwd=str(wt), timeout=4 * 3600)
             summary = next((l for l in reversed(t.stdout.splitlines()) if re.search(r"\d+ passed", l)), t.stdout[-300:]).strip()
             ok = "79 passed" in summary and " failed" not in summary and " error" not in summary
+            if not ok:
+                # a loaded machine makes notebook kernels and Monte Carlo tests time out: re-run the failed tests on their own before
+                # concluding that the existing suite catches the change
+                failed_ids = [l.split()[1] for l in t.stdout.splitlines() if l.startswith("FAILED ") and len(l.split()) > 1]
+                if 0 < len(failed_ids) <= 4:
+                    t2 = sh(["/venv/bin/python", "-m", "pytest", "-q", "-p", "no:cacheprovider", "--timeout=6000"] + failed_ids, env=env, cwd=str(wt), timeout=4 * 3600)
+                    s2 = next((l for l in reversed(t2.stdout.splitlines()) if re.search(r"\d+ passed", l)), "").strip()
+                    if f"{len(failed_ids)} passed" in s2 and " failed" not in s2:
+                        ok = True
+                        summary = f"{summary} -- the {len(failed_ids)} failed test(s) re-run alone: {s2}"
             print(f"{d.name}: {summary} -> {'ok' if ok else 'REJECTED'}", flush=True)
             if ok:
                 meta["tests"] = summary
